@@ -190,14 +190,21 @@ CLAIMED = {
              "(C05_online_mirror_partial, C05_online_total_partial, C05_chunkings_agree_partial). The proof attempt found the "
              "genuine defect F48 (nested bounded operators fed in several updates), repaired by a fix: commit; extending it showed "
              "that the known finding F32 (online since) had been repaired by an earlier fix, and F30 (two constants) was repaired "
-             "too: no region of C05 is excluded any more. Correspondence: the "
+             "too: no region of C05 is excluded any more. Source -> M-alg: the online intersection.py and the 29 operation classes are "
+             "translated from the source on every run (harness/py2lean.py -> GeneratedDenseOn.lean, sub-language Rtamt/Py/DnOn.lean with "
+             "objects, break and in-place list operations); per class the translated __init__ / update are proved to establish and "
+             "preserve a relation between the mirror's record and the object's attribute store and to return the mirror's list "
+             "(values and exceptions, all inputs, explicit fuel bounds); genOn_run: the monitor built from the translated classes "
+             "returns what the mirror returns; C05_translated_partial / C05_translated_total_partial state C05 (fragment) on the run "
+             "of the translated code. Correspondence: the "
              "real update() vs the mirror (every list every call returns, sample by sample) and vs rhoD for, per generated "
              "(specification, signals), all chunkings at the input time stamps (up to 64; thorough 512) plus per-variable "
              "chunkings, nested bounded operators on grid-spaced signals, and modular specifications under the chunkings.",
-        note="Lean kernel + standard axioms; the mirror is hand-written and tied to the code by exact correspondence of the returned "
-             "lists (no translator); the theorem leaves out constant-valued sub-formulas other than a constant operand of a binary "
+        note="Lean kernel + standard axioms; trusted: the syntactic translator, the Lean semantics of the Python subset (exercised "
+             "against the real monitor on every run), the hand-written update glue (one object per node of the formula tree; the code "
+             "keys the objects by node name); the theorem leaves out constant-valued sub-formulas other than a constant operand of a binary "
              "point-wise operation, and signals not starting at 0 (F37).",
-        technique="Lean 4 proof (stream invariants of the online operation classes; structural induction over the specification, "
+        technique="Lean 4 proof (translated source = mirror by symbolic execution of the deep embedding, state relations per class; stream invariants of the online operation classes; structural induction over the specification, "
                   "induction over the updates) + differential correspondence against the mirror and the proved semantics over "
                   "exhaustive small-scope chunkings",
         design="DESIGN.md §4 C05"),
